@@ -70,3 +70,38 @@ def long_family(N, alphabet="+-0"):
     for unit in ("+-", "+0", "-0", "+-0", "++-", "+--", "++--0", "++++----", "+++00---"):
         out.append((unit * (N // len(unit) + 1))[:N])
     return out
+
+
+def de_bruijn(alphabet, n):
+    """de Bruijn sequence B(k, n) over `alphabet`, written out linearly (every word of length n occurs exactly once as a window)."""
+    k = len(alphabet)
+    a = [0] * k * n
+    seq = []
+
+    def db(t, p):
+        if t > n:
+            if n % p == 0:
+                seq.extend(a[1:p + 1])
+        else:
+            a[t] = a[t - p]
+            db(t + 1, p)
+            for j in range(a[t - p] + 1, k):
+                a[t] = j
+                db(t + 1, t)
+    db(1, 1)
+    out = "".join(alphabet[i] for i in seq)
+    return out + out[:n - 1]
+
+
+def window_complete_chunks(alphabet, n, lengths):
+    """Irregular medium-size words: consecutive chunks (overlapping by n-1) of a de Bruijn sequence, so that together they
+    contain every window of n symbols; one family per chunk length."""
+    d = de_bruijn(alphabet, n)
+    out = []
+    for L in lengths:
+        step = L - (n - 1)
+        for i in range(0, len(d) - (n - 1), step):
+            w = d[i:i + L]
+            if len(w) >= n:
+                out.append(w)
+    return out
